@@ -295,6 +295,7 @@ func minimise(t *testing.T, p *Prop) {
 	if final.Has(*fSig) && len(final.Choices) > 0 {
 		pinned := best.Clone()
 		pinned.Sched.Choices = final.Choices
+		pinned.Sched.Selects = final.Selects
 		if o := execute(t, p, pinned, true); o.Has(*fSig) {
 			best, final = pinned, o
 		}
